@@ -4,10 +4,17 @@
       field 0      [F<k>] (full dump) or [H<k>] (Adler-32 of the dump); the first [k] steps are not printed;
       field i>0    one step: [ar,N] [ab,N,R,VOL,CEN] [ac,A,B,D0,D1,AREA,DIR,COS,NAD1,NAD2]
                    [rn,K1,V1,...] [ro,N,...;A1,B1,...]   (every token hex-encoded).
-    Result: the physics dumps after each printed step joined by [|]; [E:<exception>] ends the case. *)
-From Coq Require Import Ascii String List Bool PArith NArith FMapPositive.
+    Result: the physics dumps after each printed step joined by [|]; [E:<exception>] ends the case.
+
+    MINC and embed (model MincModel.v, numbers as exact rationals [NUM:DEN]):
+      field 0      [M] or [E]
+      grid fields  [qr,NAME,NAD,PROPS,REST] [qb,NAME,VOL,ROCK,CEN] [qc,A,B,D0,D1,AREA,DIR,COS]  (strings hex-encoded)
+      [M]: last field [mi;ATM;FR,...;NAME,...;D,...;A,...]  -> dump of the grid after minc, or [E:<exception>]
+      [E]: grid fields of self, the field [sub], grid fields of the sub-grid (same heap), last field
+           [em,HOST,INNER,D0,D1,AREA,DIR,COS]  -> [None] or the dump of the result, then [|] and the dump of self *)
+From Coq Require Import Ascii String List Bool PArith NArith ZArith QArith FMapPositive.
 From PTBase Require Import Exn PyStr PyNum PyVal Wire.
-From P Require Import Assoc GridPhys.
+From P Require Import Assoc GridPhys MincModel MincBuild.
 Import ListNotations.
 Open Scope list_scope.
 
@@ -35,21 +42,21 @@ Fixpoint pairs (l : list str) : list (str * str) :=
   match l with a :: b :: r => (a, b) :: pairs r | _ => [] end.
 Definition comma_c : ascii := ",".
 Definition semi_c : ascii := ";".
-Definition names_of (l : list str) : list str :=
+Definition hexlist (l : list str) : list str :=
   match l with [[]] => [] | _ => map unhex l end.
 Definition parse_op (f : str) : option op :=
   match split_c semi_c f with
   | [p0; p1] =>
       match split_c comma_c p0 with
       | k :: bns => if str_eqb k (s2l "ro")
-                    then Some (Reorder (names_of bns) (pairs (names_of (split_c comma_c p1))))
+                    then Some (Reorder (hexlist bns) (pairs (hexlist (split_c comma_c p1))))
                     else None
       | [] => None
       end
   | [p0] =>
       match split_c comma_c p0 with
       | k :: args =>
-          let a := names_of args in
+          let a := hexlist args in
           if str_eqb k (s2l "ar") then match a with [n] => Some (AddRock n) | _ => None end
           else if str_eqb k (s2l "ab") then match a with [n; r; v; c] => Some (AddBlock n r v c) | _ => None end
           else if str_eqb k (s2l "ac") then
@@ -84,9 +91,121 @@ Fixpoint exec (hash : bool) (g : grid) (ops : list op) (skip : nat) : list str :
       end
   end.
 
+(** ** MINC / embed cases *)
+Definition colon_c : ascii := ":".
+Definition q_of_str (s : str) : Q :=
+  match split_c colon_c s with
+  | [a; b] => Qmake (z_of_str a) (Z.to_pos (z_of_str b))
+  | [a] => inject_Z (z_of_str a)
+  | _ => 0%Q
+  end.
+Definition show_q (q : Q) : str := let r := Qred q in s2l "#" ++ show_z (Qnum r) ++ s2l ":" ++ show_z (Zpos (Qden r)).
+Definition plain_list (l : list str) : list str := match l with [[]] => [] | _ => l end.
+
+Definition parse_gop (f : str) : option gop :=
+  match split_c comma_c f with
+  | k :: args =>
+      if str_eqb k (s2l "qr") then
+        match args with [n; nad; pr; rest] => Some (GRock {| x_name := unhex n; x_nad := unhex nad; x_props := unhex pr; x_rest := unhex rest |}) | _ => None end
+      else if str_eqb k (s2l "qb") then
+        match args with [n; v; r; c] => Some (GBlock (unhex n) (q_of_str v) (unhex r) (unhex c)) | _ => None end
+      else if str_eqb k (s2l "qc") then
+        match args with
+        | [a; b; e0; e1; ea; ed; ec] => Some (GConn (unhex a) (unhex b) (q_of_str e0) (q_of_str e1) (q_of_str ea) (unhex ed) (unhex ec))
+        | _ => None
+        end
+      else None
+  | [] => None
+  end.
+Fixpoint parse_gops (fs : list str) : option (list gop) :=
+  match fs with
+  | [] => Some []
+  | f :: r => match parse_gop f, parse_gops r with Some o, Some l => Some (o :: l) | _, _ => None end
+  end.
+
+Definition qobserve (h : heap) (t : tabs) : str :=
+  let sl := s2l "/" in let comma := s2l "," in let tl_ := s2l "~" in
+  s2l "R:" ++ joinw comma (map (fun j => x_name (rk h j) ++ sl ++ x_nad (rk h j) ++ sl ++ x_props (rk h j) ++ sl ++ x_rest (rk h j)) (t_rl t)) ++
+  s2l ";B:" ++ joinw comma (map (fun i => kname h i ++ sl ++ show_q (kvol h i) ++ sl ++ x_name (rk h (k_rock (bk h i))) ++ sl ++ k_cen (bk h i) ++ sl ++
+                                         joinw (s2l "+") (map (fun k => fst k ++ tl_ ++ snd k) (k_cn (bk h i)))) (t_bl t)) ++
+  s2l ";C:" ++ joinw comma (map (fun j => kname h (o_b0 (cx h j)) ++ tl_ ++ kname h (o_b1 (cx h j)) ++ sl ++ show_q (o_d0 (cx h j)) ++ sl ++
+                                         show_q (o_d1 (cx h j)) ++ sl ++ show_q (o_area (cx h j)) ++ sl ++ o_dir (cx h j) ++ sl ++ o_cos (cx h j)) (t_cl t)) ++
+  s2l ";RD:" ++ joinw comma (map (fun kv => fst kv ++ s2l "=" ++ x_name (rk h (snd kv))) (t_rd t)) ++
+  s2l ";BD:" ++ joinw comma (map (fun kv => fst kv ++ s2l "=" ++ kname h (snd kv)) (t_bd t)) ++
+  s2l ";CD:" ++ joinw comma (map (fun kv => fst (fst kv) ++ tl_ ++ snd (fst kv) ++ s2l "=" ++ kname h (o_b0 (cx h (snd kv))) ++ tl_ ++
+                                          kname h (o_b1 (cx h (snd kv)))) (t_cd t)).
+
+Fixpoint split_last (l : list str) : option (list str * str) :=
+  match l with
+  | [] => None
+  | [a] => Some ([], a)
+  | a :: r => match split_last r with Some (i, z) => Some (a :: i, z) | None => None end
+  end.
+Fixpoint split_at_sub (l : list str) : list str * list str :=
+  match l with
+  | [] => ([], [])
+  | a :: r => if str_eqb a (s2l "sub") then ([], r) else let p := split_at_sub r in (a :: fst p, snd p)
+  end.
+
+Definition run_minc (fs : list str) : str :=
+  match split_last fs with
+  | Some (gfs, mf) =>
+      match parse_gops gfs, split_c semi_c mf with
+      | Some ops, [_; atm; frs; names; ds; as_] =>
+          match grun heap0 tabs0 ops with
+          | Raise e => s2l "E0:" ++ show_exn e
+          | Ok s =>
+              let dl := map q_of_str (plain_list (split_c comma_c ds)) in
+              let al := map q_of_str (plain_list (split_c comma_c as_)) in
+              match minc default_mbname default_mrname (fun m => nth m dl 0%Q) (fun m => nth m al 0%Q) (q_of_str atm) (fst s) (snd s)
+                         (map q_of_str (plain_list (split_c comma_c frs))) (map unhex (plain_list (split_c comma_c names))) with
+              | Raise e => s2l "E:" ++ show_exn e
+              | Ok s' => qobserve (fst s') (snd s')
+              end
+          end
+      | _, _ => s2l "BADCASE"
+      end
+  | None => s2l "BADCASE"
+  end.
+
+Definition run_embed (fs : list str) : str :=
+  match split_last fs with
+  | Some (gfs, ef) =>
+      let p := split_at_sub gfs in
+      match parse_gops (fst p), parse_gops (snd p), split_c comma_c ef with
+      | Some ops1, Some ops2, [_; host; inner; e0; e1; ea; ed; ec] =>
+          match grun heap0 tabs0 ops1 with
+          | Raise e => s2l "E0:" ++ show_exn e
+          | Ok s1 =>
+              match grun (fst s1) tabs0 ops2 with
+              | Raise e => s2l "E0:" ++ show_exn e
+              | Ok s2 =>
+                  let self := snd s1 in let sub := snd s2 in let h2 := fst s2 in
+                  match tbget self (unhex host), tbget sub (unhex inner) with
+                  | Some i0, Some i1 =>
+                      let cj := hnext h2 in
+                      let h3 := alloc_con h2 {| o_b0 := i0; o_b1 := i1; o_d0 := q_of_str e0; o_d1 := q_of_str e1; o_area := q_of_str ea;
+                                                o_dir := unhex ed; o_cos := unhex ec |} in
+                      match embed h3 self sub cj with
+                      | Raise e => s2l "E:" ++ show_exn e
+                      | Ok (h4, None) => s2l "None|" ++ qobserve h4 self
+                      | Ok (h4, Some r) => qobserve h4 r ++ s2l "|" ++ qobserve h4 self
+                      end
+                  | _, _ => s2l "BADCASE"
+                  end
+              end
+          end
+      | _, _, _ => s2l "BADCASE"
+      end
+  | None => s2l "BADCASE"
+  end.
+
 Definition run_case (line : str) : str :=
   match fields line with
   | (m :: kdigits) :: fs =>
+      if ceqb m "M" then run_minc fs
+      else if ceqb m "E" then run_embed fs
+      else
       match parse_ops fs with
       | Some ops =>
           if ceqb m "F" then joinw (s2l "|") (exec false empty ops (nat_of_str kdigits))
